@@ -7,6 +7,7 @@
 //! assume: 1 <= counterparty_next_commitment_transaction_number < 2^48
 //! trusted: R15 (statement slicing): channel_reestablish: the unit extracts everything between the `peer must be disconnected` pre-check and clear_peer_disconnected() - the commitment-number sanity test, the stale-state proof handling and the very-old-state warning - verbatim; the ~400 lines of retransmission logic after it are dropped and not claimed; error messages are dropped (R8); panic_on_stale_state is external_body `ensures false` (it panics on purpose); Signer::get_per_commitment_point unconstrained; HolderCommitmentPoint is a field skeleton whose accessors are verified on the real struct in u05b; SecretKey::from_slice external_body (Ok => the scalar is the given bytes)
 //! assume: HolderCommitmentPoint invariant: the last / previous revoked point is recorded once one / two commitments have been revoked; 1 <= next_transaction_number < 2^48 - 1
+//! trusted: R15 (deep slice): ChannelManager::from_channel_manager_data (~1700 lines): the unit extracts the staleness test that decides between resuming a channel and force-closing it from the monitor's state verbatim as a function of the four channel counters and the four monitor counters (accessors are external_body field reads); the force-close itself and everything else of the function are dropped and not claimed
 //! trusted: R6: `for (htlc, counterparty_sig) in A.iter().zip(B.iter())` becomes an index loop over min(A.len(), B.len()) (std semantics of Iterator::zip) with the two bindings taken by index
 //! trusted: env: Secp256k1::verify_ecdsa is external_body whose result is Ok exactly when the uninterpreted predicate sig_valid(msg, sig, key) holds (any signature scheme); the sighash of the commitment transaction and the sighash of each second-stage HTLC transaction are opaque values (commitment_sighash / htlc_sighash_of(htlc), uninterpreted functions of the built transaction / the HTLC); PublicKey, Signature, Message opaque; CommitmentSigned skeleton {signature, htlc_signatures}; CommitmentTransaction skeleton with external_body nondust_htlcs() returning the stored list
 use vstd::prelude::*;
@@ -233,5 +234,39 @@ impl ReestChannel {
     } else if msg.next_remote_commitment_number + 1 == our_commitment_transaction {
 //@end
 }
+
+// ---- restart: a channel whose manager state is older than its monitor is never resumed (deep R15 slice of ChannelManager::from_channel_manager_data) ----
+// commitment numbers count down from 2^48 - 1: a larger number is an older state
+pub struct RestartChanCtx { pub latest_monitor_update_id: u64 }
+impl RestartChanCtx { #[verifier::external_body] pub fn get_latest_monitor_update_id(&self) -> (r: u64) ensures r == self.latest_monitor_update_id { unimplemented!() } }
+pub struct RestartChan { pub context: RestartChanCtx, pub holder_num: u64, pub revoked_cp_num: u64, pub cur_cp_num: u64 }
+impl RestartChan {
+    #[verifier::external_body] pub fn get_cur_holder_commitment_transaction_number(&self) -> (r: u64) ensures r == self.holder_num { unimplemented!() }
+    #[verifier::external_body] pub fn get_revoked_counterparty_commitment_transaction_number(&self) -> (r: u64) ensures r == self.revoked_cp_num { unimplemented!() }
+    #[verifier::external_body] pub fn get_cur_counterparty_commitment_transaction_number(&self) -> (r: u64) ensures r == self.cur_cp_num { unimplemented!() }
+}
+pub struct RestartMon { pub holder_num: u64, pub min_seen_secret: u64, pub cur_cp_num: u64, pub latest_update_id: u64 }
+impl RestartMon {
+    #[verifier::external_body] pub fn get_cur_holder_commitment_number(&self) -> (r: u64) ensures r == self.holder_num { unimplemented!() }
+    #[verifier::external_body] pub fn get_min_seen_secret(&self) -> (r: u64) ensures r == self.min_seen_secret { unimplemented!() }
+    #[verifier::external_body] pub fn get_cur_counterparty_commitment_number(&self) -> (r: u64) ensures r == self.cur_cp_num { unimplemented!() }
+    #[verifier::external_body] pub fn get_latest_update_id(&self) -> (r: u64) ensures r == self.latest_update_id { unimplemented!() }
+}
+//@extract lightning/src/ln/channelmanager.rs :: impl ChannelManager :: fn from_channel_manager_data
+//@slice R15
+    if let Some(ref mut monitor) = args.channel_monitors.get_mut(&channel_id) { if $stale:cond { $a:straight let shutdown_result = channel.force_shutdown(ClosureReason::OutdatedChannelManager);
+//@with
+    fn manager_is_behind_its_monitor(channel: &RestartChan, monitor: &RestartMon) -> bool { $stale }
+//@ret stale
+//@ensures P C05 after-a-restart-a-channel-is-resumed-only-if-its-manager-state-is-at-least-as-new-as-its-monitor-in-all-four-counters
+    !stale ==> channel.holder_num <= monitor.holder_num && channel.revoked_cp_num <= monitor.min_seen_secret
+        && channel.cur_cp_num <= monitor.cur_cp_num && channel.context.latest_monitor_update_id >= monitor.latest_update_id,
+    stale ==> channel.holder_num > monitor.holder_num || channel.revoked_cp_num > monitor.min_seen_secret
+        || channel.cur_cp_num > monitor.cur_cp_num || channel.context.latest_monitor_update_id < monitor.latest_update_id,
+//@mutant channel_with_unseen_revocations_resumed
+    || channel.get_revoked_counterparty_commitment_transaction_number() > monitor.get_min_seen_secret()
+//@with
+    
+//@end
 }
 fn main() {}
